@@ -37,7 +37,8 @@ pub fn exec(rec: &Value, _st: &mut State) -> Value {
     plane = plane.transform_by(&t);
     match op {
         "section" => {
-            match mesh.section(&plane, None) {
+            let stol = match gi_or(rec, "stol16", 0) { 0 => None, k => Some(k as f64 / 16.0) };
+            match mesh.section(&plane, stol) {
                 Err(_) => json!({"ok": false}),
                 Ok(curves) => {
                     let cs: Vec<Vec<Vec<i64>>> = curves.iter().map(|c| c.points().iter().map(|p| qp3(&mut q, p)).collect()).collect();
